@@ -72,9 +72,15 @@ class AddressMap:
 
 
 def make_phy(memtype, nphases, databits=16, rdphase=0, wrphase=0, cl=2, cwl=None, read_latency=4,
-             write_latency=0, nranks=1, dfi_mult=None):
+             write_latency=0, nranks=1, dfi_mult=None, phase_signals=False):
     if dfi_mult is None:
         dfi_mult = 1 if memtype == "SDR" else 2
+    if phase_signals and nphases > 1:
+        # the Xilinx PHYs hand their rdphase / wrphase CSR storages (log2(nphases) bits, reset = the computed phase) to the
+        # controller instead of integers
+        from migen import Signal
+        rdphase = Signal(log2_int(nphases), reset=rdphase)
+        wrphase = Signal(log2_int(nphases), reset=wrphase)
     return PhySettings(
         phytype="VerifRefDRAM", memtype=memtype, databits=databits,
         dfi_databits=databits * dfi_mult,
